@@ -123,6 +123,28 @@ N = {
  "C17-d2": ("reuse path takes the first of index*.wtml", "an absolutised index.wtml written next to index_rel.wtml (publication step) before the reuse", "history step 'absolutize' (same statements as `toasty pipeline approve`)"),
  "C18-d1": ("all files but index.wtml sent from a thread pool whose futures are dropped", "a transfer failure on any file but the last", "-"),
  "C18-d2": ("store writes to <item>.part opened with 'xb' and renames; no clean-up on error", "a failure during the copy inside put_item, then a re-run", "'mid' faults are now injected INSIDE the real put_item (shutil.copyfileobj dies after 7 bytes) instead of being simulated by the harness"),
+ "C04-e1": ("level-1 corner table filled into ONE module-level array; tiles' corners are views of it", "both coordinate systems used in one process while tiles (or a running generator) of the first are still held", "new 'live' cases: tiles handed out earlier are re-examined after the other system was used through every route; a half-consumed enumeration is resumed"),
+ "C04-e2": ("recursive tile walk rewritten with a module-level explicit stack", "two enumerations alive at once (zip, a search started and dropped inside another's loop)", "'live' cases: lockstep / nested-partial enumerations compared with solo ones (bounded, so that an endless enumeration is a violation, not a watchdog)"),
+ "C05-e1": ("create_single_tile re-uses the ancestor chain of the previous result with a depth mis-alignment", "a request following one for a deeper tile with matching bits", "-"),
+ "C05-e2": ("tile walk on a shared module-level work list", "enumerations advanced in lockstep or peeked inside another's loop", "route 'lockstep' (tiles taken from two interleaved enumerations), bounded"),
+ "C06-e1": ("done flag raised before finish_workers flushes the queue", "feeder lagging one time-out behind at the end of dispatch", "-"),
+ "C06-e2": ("update_image breaks a tile lock after waiting 15 s", "two jobs on one pyramid, one holding a tile for more than 15 s", "concurrent jobs run on a 300x dilated perf_counter; in half of them the first job's source is slow for its first tiles (the sampler runs inside the locked region)"),
+ "C07-e1": ("lat/lon tile filter memoises its verdict per tile position", "one filter object used for tiles of both coordinate systems", "box cases: one filter answers for both systems, in random order, and again afterwards"),
+ "C07-e2": ("chunk pixels kept on the ChunkedPlateCarreeSampler instance instead of in the closure", "a chunk's sampler used after sampler() was called for another chunk", "all (filter, sampler) pairs requested up front, used in order / reversed"),
+ "C08-e1": ("tile_image skips write_image for a fully undefined tile (and with it the removal of an older file)", "an image tiled over the pyramid of an earlier image, undefined over a whole tile the old one populated", "history 'same_dir': an earlier image tiled into the directory first; the new one undefined over whole tiles"),
+ "C08-e2": ("256x256 scratch buffer kept on the StudyTiling object", "one tiling object applied to two images of different modes", "history 'same_tiling'"),
+ "C09-e1": ("workers unlink the lock files of the tiles they touched when they leave", ">= 3 workers; an idle worker exits while another is inside an update of a tile both touched and a third waits for it", "'stack' cases: 5-8 full-frame inputs with EXCLUSIVE fine stripes (a lost update of one tile is visible), 3-4 workers, long updates; my first stack inputs overlapped, so a lost update was masked by the other inputs"),
+ "C09-e2": ("multi-TAN worker gives up after 10 consecutive idle polls", "producer stalls for more than 10 time-outs", "- (stall profile)"),
+ "C11-e1": ("per-shape grid object (lru_cache) shared by all samplers; each factory overwrites its lon0", "two live samplers of one map shape with different longitude conventions; the older one used after the newer was built", "samplers of all other layouts are built (one is used) between building and using the sampler under test"),
+ "C11-e2": ("planet samplers: floor of (lon % 2pi)*dx without clip", "longitudes within 4e-16 below the seam (denormals, -1e-300)", "-"),
+ "C12-e1": ("tile lookup returns the remembered tile while the new point is within the remembered clearance of the PREVIOUS point (the radius drifts)", "consecutive same-depth lookups of close points that drift over an edge", "'track' cases: 60-step tracks at one depth, steps of 0.05-0.4 tile widths, incl. towards seams"),
+ "C12-e2": ("pixel lookup results cached under positions rounded to 1e-8 rad", "depth >= 21 and an earlier lookup of another position in the same 1e-8 bin", "'pairs' cases: back-to-back lookups of positions a few nanoradians apart at depths 12-24"),
+ "C16-e1": ("flipped rows copied into a scratch array cached per (shape, dtype)", "two live images of identical shape both flipped, the earlier one inspected afterwards", "groups of 2-4 same-shaped images flipped one after the other, then all inspected"),
+ "C16-e2": ("flipped WCS cached under the header text, without the image height", "the same WCS on images with different numbers of rows", "one WCS on objects of four different heights in sequence"),
+ "C19-e1": ("finish_workers joins each worker for at most 15 s and does not look at is_alive", "the failing item still in progress 15 s after the queue was flushed", "late failures of 0.25 / 0.7 / 1.5 s (12-75 s dilated); a stage that returns while the failing item is in progress is now a violation (was: inconclusive 'fault never injected')"),
+ "C19-e2": ("on a worker failure the walk dispatcher raises the flag and joins all workers before reporting", "survivors still busy with > 2k tiles obtainable: a survivor blocks in put on the undrained done queue", "- (all-blocked rule)"),
+ "C20-e1": ("--hdu-index parsed into the CLASS attribute of CollectionLoader", "a command line with the option, then one without, in one process", "-"),
+ "C20-e2": ("default HDU guess accepts only PrimaryHDU / ImageHDU", "a file whose first image HDU is tile-compressed (CompImageHDU) followed by a plain image HDU", "30 % of the non-primary image HDUs are written tile-compressed (lossless GZIP)"),
 }
 
 
